@@ -189,18 +189,31 @@ struct Outcome {
     ok: bool,
     tls_error: bool,
     error: String,
+    /// the exchange died of a transport event (hang-up, reset, timeout, EOF), not of a verdict on the
+    /// certificate: on an overloaded machine that is what a starved loopback peer looks like
+    transport_failure: bool,
 }
 
 fn outcome(res: Result<attohttpc::Response, attohttpc::Error>) -> Outcome {
     match res {
-        Ok(r) => Outcome { ok: r.status().as_u16() == 200, tls_error: false, error: format!("status {}", r.status()) },
-        Err(e) => Outcome { ok: false, tls_error: matches!(e.kind(), attohttpc::ErrorKind::Tls(_)), error: format!("{e:?}").chars().take(160).collect() },
+        Ok(r) => Outcome { ok: r.status().as_u16() == 200, tls_error: false, error: format!("status {}", r.status()), transport_failure: false },
+        Err(e) => {
+            let full = format!("{e:?}");
+            let transport = ["BrokenPipe", "ConnectionReset", "ConnectionAborted", "WouldBlock", "TimedOut", "UnexpectedEof", "timed out"].iter().any(|k| full.contains(k));
+            let about_the_certificate = ["ertificate", "verify", "Verif", "NoRootAnchors", "UnknownIssuer", "NotValidFor", "Expired", "InvalidDNSName", "BadSignature"].iter().any(|k| full.contains(k));
+            Outcome { ok: false, tls_error: matches!(e.kind(), attohttpc::ErrorKind::Tls(_)), error: full.chars().take(160).collect(), transport_failure: transport && !about_the_certificate }
+        }
     }
 }
 
 fn judge(ctx: &mut Ctx, what: &str, expected_ok: bool, liveness: bool, out: &Outcome, servers_saw_request: bool, descr: &dyn Fn() -> String) {
     if out.ok && !expected_ok {
         ctx.violation(format!("unauthenticated-peer-accepted:{what}"), format!("the exchange succeeded although the truth table says the peer must be rejected; {}", descr()));
+    } else if !out.ok && expected_ok && liveness && out.transport_failure {
+        // (liveness means "an acceptable peer is not REJECTED": a hang-up or timeout between two
+        //  loopback threads is the machine's doing - the peers have 5 s limits -, not a rejection)
+        ctx.count("liveness_cases_lost_to_a_transport_failure", 1);
+        ctx.inconclusive(format!("an acceptable peer was not reached because of a transport failure ({}); {}", out.error, descr()));
     } else if !out.ok && expected_ok && liveness && crate::framework::memcheck_mode() {
         // (under valgrind the loopback peers run into their own time limits: not a verdict)
         ctx.inconclusive(format!("memcheck pass: an acceptable peer was not reached ({}); {}", out.error, descr()));
